@@ -16,6 +16,8 @@ equivalent one in which those choices are undone:
   N7  `x = a if c else b`, `return a if c else b` (a conditional expression as the whole value) become if/else statements;
   N8  `x = {k1: v1, ...}.get(e[, d])` / `{...}[e]` over a literal table (or a single-assignment local bound to one) becomes the
       if/elif chain on e == k1, ...;
+  N9  `enumerate(<literal>)` becomes the literal tuple of (i, element) pairs, `<literal>[<constant>]` the element; a `continue` in
+      the body of a literal loop is first turned into the equivalent if/else (tail-position transform), so the loop can be unrolled.
   N1 also covers closures (a function defined inside the analysed function and called there), static methods reached through
   self / the class name, and helpers with *args / **kwargs parameters (bound to the tuple / dict display of the extra arguments;
   a `*display` / `**display` in a call is spliced back into plain arguments).
@@ -743,6 +745,12 @@ class Normalizer:
                 tnames = set(binds[0])
                 jumps = [n for n in walk_no_nested(st.body) if isinstance(n, (ast.Break, ast.Continue))
                          and not _in_inner_loop(n, st)]
+                if jumps and all(isinstance(n, ast.Continue) for n in jumps) and not st.orelse:
+                    try:
+                        st.body = _elim_continue(st.body, st) or [ast.Pass()]
+                        jumps = []
+                    except NotInlinable:
+                        pass
                 # search form: for t in (...): if c: <stmts>; break  [else: ...]
                 if len(st.body) == 1 and isinstance(st.body[0], ast.If) and not st.body[0].orelse \
                         and st.body[0].body and isinstance(st.body[0].body[-1], ast.Break) and len(jumps) == 1 \
@@ -802,6 +810,12 @@ class Normalizer:
         class T(ast.NodeTransformer):
             def visit_Call(self, node):
                 self.generic_visit(node)
+                if isinstance(node.func, ast.Name) and node.func.id == 'enumerate' and len(node.args) == 1 and not node.keywords:
+                    lit = norm._literal_of(node.args[0], fn)
+                    if lit is not None and lit.elts and len(lit.elts) <= MAX_UNROLL and all(is_stable(x) for x in lit.elts):
+                        changed[0] = True
+                        rows = [ast.Tuple(elts=[ast.Constant(value=i), clone(x)], ctx=ast.Load()) for i, x in enumerate(lit.elts)]
+                        return ast.copy_location(ast.Tuple(elts=rows, ctx=ast.Load()), node)
                 if isinstance(node.func, ast.Name) and node.func.id == 'zip' and len(node.args) >= 2 and not node.keywords:
                     cols = [norm._literal_of(a, fn) for a in node.args]
                     if all(c is not None for c in cols) and len({len(c.elts) for c in cols}) == 1 \
@@ -851,6 +865,28 @@ class Normalizer:
                 out.append(st)
             return out
         fn.body = do_block(fn.body)
+        return changed[0]
+
+    # ------------------------------------------------------------------ N9
+    def literal_items(self, fn):
+        for n in ast.walk(fn):
+            for c in ast.iter_child_nodes(n):
+                c._p = n
+        changed = [False]
+        norm = self
+
+        class T(ast.NodeTransformer):
+            def visit_Subscript(self, node):
+                self.generic_visit(node)
+                if isinstance(node.ctx, ast.Load) and isinstance(node.slice, ast.Constant) and isinstance(node.slice.value, int) \
+                        and not isinstance(node.slice.value, bool) and isinstance(node.value, (ast.Name, ast.Tuple, ast.List)):
+                    lit = norm._literal_of(node.value, fn) if isinstance(node.value, ast.Name) else node.value
+                    if lit is not None and not any(isinstance(x, ast.Starred) for x in lit.elts) and -len(lit.elts) <= node.slice.value < len(lit.elts) \
+                            and isinstance(lit, ast.Tuple) and all(is_stable(x) for x in lit.elts):
+                        changed[0] = True
+                        return ast.copy_location(clone(lit.elts[node.slice.value]), node)
+                return node
+        T().visit(fn)
         return changed[0]
 
     # ------------------------------------------------------------------ N7
@@ -1107,7 +1143,7 @@ class Normalizer:
             maybe_call = maybe_call or False
         want = {
             'dict': ast.Dict in kinds,
-            'zip': 'zip' in names and ast.For in kinds or 'zip' in names,
+            'zip': 'zip' in names or 'enumerate' in names,
             'dictcomp': ast.DictComp in kinds,
             'unroll': ast.For in kinds,
             'attr': 'setattr' in names or 'getattr' in names,
@@ -1148,6 +1184,8 @@ class Normalizer:
             ch |= self.dictcomp_loops(fn)
         if want['unroll']:
             ch |= self.unroll(fn)
+        if ch or want['unroll']:
+            ch |= self.literal_items(fn)
         if want['attr']:
             ch |= self.attr_forms(fn)
         if want['append']:
@@ -1168,6 +1206,26 @@ class Normalizer:
         fn._normalized_from = node
         self.log[f.qualname] = sorted(ctx['used'])
         return fn
+
+
+def _elim_continue(stmts, loop):
+    """the loop body with `continue` replaced by structured control flow (what follows a guard moves into its else branch)"""
+    out = []
+    for i, st in enumerate(stmts):
+        rest = stmts[i + 1:]
+        if isinstance(st, ast.Continue):
+            return out
+        has = any(isinstance(n, ast.Continue) and not _in_inner_loop(n, loop) for n in ([st] if isinstance(st, ast.Continue) else walk_no_nested(st)))
+        if not has:
+            out.append(st)
+            continue
+        if isinstance(st, ast.If):
+            nb = _elim_continue(st.body + (clone(rest) if falls_through(st.body) else []), loop)
+            no = _elim_continue(st.orelse + (clone(rest) if falls_through(st.orelse) else []), loop)
+            out.append(ast.copy_location(ast.If(test=st.test, body=nb or [ast.Pass()], orelse=no), st))
+            return out
+        raise NotInlinable('continue inside try/with/loop')
+    return out
 
 
 def _in_inner_loop(n, loop):
